@@ -333,8 +333,9 @@ def cfg_fresh_variable(G: CFG, hint: str) -> Variable:
     # assert len(hint) == 1
     # assert hint.isupper()
 
-    V = G.V
-    if len(V) >= 26:
+    # a fresh variable may not coincide with a terminal either (e.g. the upper case of the terminal '0' is '0')
+    V = set(G.V) | set(G.Sigma)
+    if len(G.V) >= 26:
         index = 0
         A = Variable(hint)
         while A in V:
